@@ -22,10 +22,11 @@ try:
     rc, out, _ = sh("git apply %s" % patch, cwd=wt); rep["patch_applies"] = rc == 0
     if rc == 0:
         rc, out, _ = sh("go build ./... && go build -tags verif ./...", cwd=wt); rep["builds"] = rc == 0
-        rc, out, dt = sh("go test -vet=off -count=1 -timeout 25m ./... 2>&1 | grep -v 'no test files' | grep -v '^ok' ; true", cwd=wt)
-        rep["suite_passes_with_change"] = out.strip() == ""; rep["suite_output_if_not_ok"] = out[-800:]
+        if tier == "quick":
+            rc, out, dt = sh("go test -vet=off -count=1 -timeout 25m ./... 2>&1 | grep -v 'no test files' | grep -v '^ok' ; true", cwd=wt)
+            rep["suite_passes_with_change"] = out.strip() == ""; rep["suite_output_if_not_ok"] = out[-800:]
         sh("rsync -a --exclude bin --exclude .work --exclude .git --exclude replays --exclude evidence --exclude seeded /verif/ %s/" % vcopy)
-        rc, out, dt = sh("VERIF_REPO=%s ./check %s %s" % (wt, tier, prop), cwd=vcopy)
+        rc, out, dt = sh("VERIF_REPO=%s %s ./check %s %s" % (wt, os.environ.get("BENIGN_ENV", ""), tier, prop), cwd=vcopy, timeout=7200)
         rep["check_exit"] = rc; rep["check_s"] = round(dt)
         rep["check_lines"] = [l for l in out.splitlines() if l.startswith(("VIOLATION", "KNOWN", "HARNESS", "  class", "check ", "  "))][:30]
         os.makedirs("/verif/seeded/benign-%s/replays" % sid, exist_ok=True)
@@ -39,8 +40,15 @@ m = {"property": prop, "kind": "benign change: keeps the property, the check mus
      "why_property_still_holds": meta.get("why_property_still_holds"), "incidental_behaviour_changed": meta.get("incidental_behaviour_changed"),
      "files_touched": meta.get("files_touched"),
      "what_i_ran": "scratch worktree of /repo HEAD: git apply; go build ./... (with and without -tags verif); whole suite; VERIF_REPO=<worktree> ./check %s %s on a private copy of /verif" % (tier, prop)}
-m.update(rep)
-m["silent"] = rep.get("check_exit") == 0
+if tier != "quick" and os.path.exists(out_dir + "/meta.json"):
+    # a second pass at a deeper tier: keep the quick result, add this one
+    m = json.load(open(out_dir + "/meta.json"))
+    m[tier + "_check_exit"] = rep.get("check_exit"); m[tier + "_check_s"] = rep.get("check_s"); m[tier + "_check_lines"] = rep.get("check_lines")
+    m[tier + "_silent"] = rep.get("check_exit") == 0
+    m["silent"] = m.get("silent") and m[tier + "_silent"]
+else:
+    m.update(rep)
+    m["silent"] = rep.get("check_exit") == 0
 json.dump(m, open(out_dir + "/meta.json", "w"), indent=1)
 print(json.dumps({k: m.get(k) for k in ("patch_applies", "builds", "suite_passes_with_change", "check_exit", "silent", "check_s")}), sid)
 for l in rep.get("check_lines", [])[:10]:
